@@ -1,7 +1,7 @@
 //! C08 — float text I/O is lossless; base and precision changes are faithfully rounded.
 use dashu_base::Approximation;
 use dashu_float::{round::mode, FBig};
-use dashu_int::Word;
+use dashu_int::{IBig, Word};
 use dvh::conv::*;
 use dvh::ensure;
 use dvh::gen;
@@ -98,7 +98,8 @@ trait SciFmt {
     fn sci(&self, n: usize) -> Vec<SciOut>;
 }
 macro_rules! sci_generic {
-    ($B:literal, $lm:literal, $um:literal) => {
+    // `$B:tt`, not `:literal`: a forwarded literal fragment is opaque and would never match the `2` / `16` arms of sci_extra
+    ($B:tt, $lm:literal, $um:literal) => {
         impl<Rm: dashu_float::round::Round> SciFmt for FBig<Rm, $B> {
             fn sci(&self, n: usize) -> Vec<SciOut> {
                 #[allow(unused_mut)]
@@ -122,7 +123,7 @@ macro_rules! sci_extra {
         $v.push(("{:x}", format!("{:x}", $s), format!("{:.*x}", $n, $s), 16, 16, 'h', ""));
         $v.push(("{:X}", format!("{:X}", $s), format!("{:.*X}", $n, $s), 16, 16, 'h', ""));
     };
-    ($B:literal, $v:ident, $s:ident, $n:ident) => {};
+    ($B:tt, $v:ident, $s:ident, $n:ident) => {};
 }
 sci_generic!(2, '@', '@');
 sci_generic!(10, 'e', 'E');
@@ -327,6 +328,28 @@ where
 
 fn base_case<Rm: ModeTag, const B: Word, const NB: Word>(m: &mut Mon, r: &mut Rng) {
     let (base, nbase) = (B as u32, NB as u32);
+    if r.chance(1, 40) {
+        // zero is representable in every base at every precision, also when it carries the unlimited precision of the
+        // constants (ZERO, default(), try_from(0.0)) or of with_precision(0)
+        let kind = r.below(5);
+        let pz = 1 + r.usize(30);
+        let z: FBig<Rm, B> = match kind {
+            0 => FBig::<Rm, B>::ZERO,
+            1 => FBig::<Rm, B>::default(),
+            2 => FBig::<Rm, B>::from_parts(IBig::from(0), 0).with_precision(pz).value(),
+            3 => FBig::<Rm, B>::from_parts(IBig::from(0), 0).with_precision(0).value(),
+            _ => FBig::<Rm, B>::from_parts(IBig::from(7), 0).with_precision(pz).value() * FBig::<Rm, B>::ZERO,
+        };
+        let explicit = r.chance(1, 3);
+        m.check("with_base", &format!("{}/{}to{}/zero", Rm::M.name(), base, nbase), Some(kind ^ (base as u64) << 8 ^ (nbase as u64) << 16 ^ (explicit as u64) << 24 ^ (pz as u64) << 32), &|| format!("with_base of zero kind#{} (precision {}) mode={} {}->{} explicit={}", kind, z.precision(), Rm::M.name(), base, nbase, explicit), || {
+            let res = catch(|| if explicit { z.clone().with_base_and_precision::<NB>(pz) } else { z.clone().with_base::<NB>() }).or_else(|pn| fail("unexpected_panic", pn))?;
+            let flag = Flag::of(&res);
+            let v = res.value();
+            ensure!(flag == Flag::Exact && v.repr().is_zero(), "value", "zero converted to {}*{}^{} flagged {:?}", v.repr().significand(), nbase, v.repr().exponent(), flag);
+            Ok(())
+        });
+        return;
+    }
     let s = BigInt::from(sig_value(r, m, base)) * if r.bool() { -1 } else { 1 };
     let sd = qref::digits(&s, base);
     let p = sd + r.usize(10);
